@@ -1,0 +1,8 @@
+//go:build !verif
+// +build !verif
+
+package isaacstates
+
+import "github.com/spikeekips/mitum/base"
+
+func verifBoxVoteproof(*Ballotbox, base.Voteproof) {}
